@@ -15,9 +15,20 @@ def _strip_comments(src):
 
 def theorems_of(prop_file):
     src = _strip_comments(open(prop_file).read())
-    ns = re.findall(r"^namespace\s+(\S+)", src, flags=re.M)
-    prefix = (ns[0] + ".") if ns else ""
-    return [prefix + n for n in re.findall(r"^theorem\s+(\S+)", src, flags=re.M)]
+    stack, out = [], []
+    for ln in src.splitlines():
+        m = re.match(r"^namespace\s+(\S+)", ln)
+        if m:
+            stack.append(m.group(1))
+            continue
+        m = re.match(r"^end\s+(\S+)", ln)
+        if m and stack and stack[-1] == m.group(1):
+            stack.pop()
+            continue
+        m = re.match(r"^theorem\s+(\S+)", ln)
+        if m:
+            out.append(".".join(stack + [m.group(1)]))
+    return out
 
 
 def prop_modules(pid):
